@@ -862,22 +862,120 @@ func runScript(t *testing.T, r *Rng, variant int) (JNetTrace, JNetImpl) {
 	return trace, JNetImpl{FirstReport: map[string]int{}, Eligible: map[string]int{}}
 }
 
+// runScriptAnyOf drives one real member through the two histories in which the clause "never willing to transmit two
+// different reports for one unit of work at once" is false of the code (proved for the model in Props/C09Net:
+// one_report_per_work_false_diff_blocks / _false_same_block; known findings):
+//   variant 3: A = [w@lo, x@lo] accepted; w re-agreed at hi (A's acceptance was delayed elsewhere), B = [w@hi] accepted;
+//              A stays offered on account of x, B on account of w
+//   variant 4: A = [w@lo] accepted, B = [w@lo, x@hi] (w agreed again before anybody had accepted A) accepted
+func runScriptAnyOf(t *testing.T, r *Rng, variant int) (JNetTrace, JNetImpl) {
+	n, f := 4, 1
+	digest := genHash(r)
+	wid, xid := genUpkeepID(r, false), genUpkeepID(r, false)
+	mk := func(uid ocr2keepers.UpkeepIdentifier, block uint64) ocr2keepers.CheckResult {
+		res := genResult(r, uid, block)
+		res.GasAllocated = uint64(r.Range(1000, 100000))
+		return res
+	}
+	wlo, whi, xlo, xhi := mk(wid, 90), mk(wid, 100), mk(xid, 90), mk(xid, 100)
+	var repA, repB []ocr2keepers.CheckResult
+	if variant == 3 {
+		repA, repB = []ocr2keepers.CheckResult{wlo, xlo}, []ocr2keepers.CheckResult{whi}
+	} else {
+		repA, repB = []ocr2keepers.CheckResult{wlo}, []ocr2keepers.CheckResult{wlo, xhi}
+	}
+	trace := JNetTrace{N: n, F: f, Honest: []int{0, 1, 2, 3}, Correct: []int{0, 1, 2, 3}, Restarts: map[string][]int{},
+		WindowNs: int64(20 * time.Minute), MinConf: 0, Batch: 3}
+	start := time.Now()
+	op := func(kind string, report int, ans bool) {
+		trace.Ops = append(trace.Ops, JNetOp{At: int64(time.Since(start)), Kind: kind, Node: 3, Report: report, Ans: ans})
+	}
+	jcrs := func(rs []ocr2keepers.CheckResult) []JCR {
+		out := make([]JCR, len(rs))
+		for i, x := range rs {
+			out[i] = toJCR(x)
+		}
+		return out
+	}
+	for _, res := range []ocr2keepers.CheckResult{wlo, whi, xlo, xhi} {
+		trace.Pipeline = append(trace.Pipeline, netPipelineEntry{Node: 0, Res: toJCR(res)})
+	}
+	vouch := func(rs []ocr2keepers.CheckResult) []JNetObs {
+		var out []JNetObs
+		for o := 0; o < 3; o++ {
+			out = append(out, JNetObs{Oracle: o, Valid: true, Perf: jcrs(rs)})
+		}
+		return out
+	}
+	trace.Rounds = []JNetRound{
+		{Seq: 1, Obs: vouch(repA), Agreed: jcrs(repA), Reports: []int{0}, OutcomeOK: true},
+		{Seq: 2, Obs: vouch(repB), Agreed: jcrs(repB), Reports: []int{1}, OutcomeOK: true},
+	}
+	trace.Reports = []JNetReport{{ID: 0, Round: 0, Upkeeps: jcrs(repA)}, {ID: 1, Round: 1, Upkeeps: jcrs(repB)}}
+	op("round", 0, true)
+	op("round", 1, true)
+	node := NewNode(t, NodeOpts{N: n, F: f, Digest: digest, OracleID: 3, OffchainConfig: []byte(`{"maxUpkeepBatchSize":3}`)})
+	time.Sleep(1500 * time.Millisecond)
+	rep := func(id int) ocr3types.ReportWithInfo[pluginInfo] {
+		rs := repA
+		if id == 1 {
+			rs = repB
+		}
+		b := must(node.Enc.Encode(rs...))
+		node.Enc.Take()
+		return ocr3types.ReportWithInfo[pluginInfo]{Report: b}
+	}
+	for id := 0; id < 2; id++ {
+		ok, _ := node.Plugin.ShouldAcceptAttestedReport(context.Background(), 1, rep(id))
+		trace.Queries = append(trace.Queries, JNetQuery{Round: 1, Node: 3, Report: id, IsAccept: true, Accept: ok})
+		op("accept", id, ok)
+	}
+	for id := 0; id < 2; id++ {
+		ok, _ := node.Plugin.ShouldTransmitAcceptedReport(context.Background(), 1, rep(id))
+		trace.Queries = append(trace.Queries, JNetQuery{Round: 1, Node: 3, Report: id, Transmit: ok})
+		op("transmit", id, ok)
+	}
+	node.Close()
+	time.Sleep(11 * time.Second)
+	return trace, JNetImpl{FirstReport: map[string]int{}, Eligible: map[string]int{}}
+}
+
 func TestC09(t *testing.T) {
 	em := NewEmitter(t, "C09")
 	defer em.Close()
-	if os := envInt("VERIF_REPLAY_SEED", -1); os >= 0 {
-		// a C09 replay re-runs the network with the recorded seed (sampling in the real code uses crypto/rand, so the
-		// schedule may differ in detail; the predicates are evaluated on whatever trace results)
+	script := func(v int) (tr JNetTrace, impl JNetImpl) {
+		if v >= 3 {
+			return runScriptAnyOf(t, NewRng(uint64(4242+v)), v)
+		}
+		return runScript(t, NewRng(uint64(4242+v)), v)
+	}
+	if _, raws, replayOnly := corpusInputs(t, "C09"); replayOnly {
+		// a C09 replay re-runs the recorded script, or the network with the recorded seed (the conditional sampling in
+		// the real code uses crypto/rand, so a schedule may differ in detail; the predicates are evaluated on whatever
+		// trace results)
+		var in struct {
+			Kind   string `json:"kind"`
+			Seed   uint64 `json:"seed"`
+			Script *int   `json:"script"`
+		}
+		if err := gojson.Unmarshal(raws[0], &in); err != nil || in.Kind != "trace" {
+			t.Fatalf("C09 replays re-run a trace case by seed or script number (kind=%q): %v", in.Kind, err)
+		}
 		synctest.Test(t, func(t *testing.T) {
-			tr, impl := runNetwork(t, NewRng(uint64(os)), em, nil)
-			em.Emit("replay", map[string]any{"kind": "trace", "seed": os, "trace": tr}, impl)
+			if in.Script != nil {
+				tr, impl := script(*in.Script)
+				em.Emit("replay", map[string]any{"kind": "trace", "seed": *in.Script, "script": *in.Script, "trace": tr}, impl)
+				return
+			}
+			tr, impl := runNetwork(t, NewRng(in.Seed), em, nil)
+			em.Emit("replay", map[string]any{"kind": "trace", "seed": in.Seed, "trace": tr}, impl)
 		})
 		return
 	}
-	for v := 0; v < 3; v++ {
+	for v := 0; v < 5; v++ {
 		synctest.Test(t, func(t *testing.T) {
-			tr, impl := runScript(t, NewRng(uint64(4242+v)), v)
-			em.Emit("edge", map[string]any{"kind": "trace", "seed": v, "trace": tr}, impl)
+			tr, impl := script(v)
+			em.Emit("edge", map[string]any{"kind": "trace", "seed": v, "script": v, "trace": tr}, impl)
 		})
 	}
 	r := NewRng(seed() + 9000)
